@@ -1,6 +1,7 @@
 (* driver for the extracted ordered-diff model; same case file and output lines as `bb ord` *)
 open Ordered_model
 (*CONV*)
+(*CONVZ*)
 let show_change = function
   | CReplace (v, i) -> Printf.sprintf "R(%d,%d)" (int_of_z v) (int_of_nat i)
   | CInsert (v, i) -> Printf.sprintf "I(%d,%d)" (int_of_z v) (int_of_nat i)
